@@ -92,10 +92,20 @@ def innermost_quimb_frame(exc):
     return name
 
 
+class MissingDependency(Exception):
+    """An optional third-party package is not installed in this sandbox."""
+
+
 def classify_exception(exc):
     """-> ("rejected" | "internal", typename, function)."""
     fn = innermost_quimb_frame(exc)
     tname = type(exc).__name__
+    if isinstance(exc, ModuleNotFoundError):
+        raise Skip() from None
+    if isinstance(exc, ImportError) and "autoray couldn't find function" in str(exc):
+        # autoray's way of saying "this array type does not support that
+        # operation": the call was refused
+        return "rejected", tname, fn
     if isinstance(exc, TypeError):
         msg = str(exc)
         if any(s in msg for s in _SIGNATURE_TYPEERROR):
